@@ -5,6 +5,11 @@ IDS = ["C%02d" % i for i in range(1, 21)]
 
 # id -> (engine, category, technique, text, note, design_ref)
 CHECKS = {
+ "C18": ("E1-enumeration+Lean-eval+CLI", "exploration",
+   "complete enumeration of the quotient (Fingerprint+absent)^3 and of all small path maps against a table written from the property text; repository's Lean model evaluated on 125 triples; bisync --dry-run on 80 single-path states",
+   "All 343 (a, b, base) triples over absent + 3 digests x {File, Symlink} under 17 digest labellings (one-byte differences, extremes, permutations, seeded) against the documented table, mirror symmetry and no-delete-without-base; reconcile() over every (a, b, base) map triple on three 3-path universes (4-path in thorough) whose byte order and component order disagree, both trust settings; the repo's Lean `reconcile` is evaluated (#eval, not proved) on {none, some 0..3}^3 and must agree; `copia bisync --dry-run` must print the table's action for each single-path state with/without archive.",
+   "Decision depends only on equality of fingerprints (checked over labellings, not proved for all digests).",
+   "DESIGN.md §3 C18"),
  "C01": ("E1-enumeration+CLI", "exploration",
    "bounded-exhaustive enumeration of (basis, source, block size) on both engines against reference oracles; real CLI process chain per case",
    "Every (basis, source) pair over {0,1,2}^<=5 (quick) / <=6 (thorough) at library block sizes 1..4, and every chunk-string basis (<=2/<=3 chunks from zero, 0xFF, high-byte, two seeded, a constructed weak-checksum collision, short tail) x every edit script (identity, chunk permutations, insert/delete/replace of k bytes at every alignment, junk prefixes around the 5000-slide normalisation boundary) at 3 / all 8 legal block sizes, on the sync and async engines: patch Ok and output == source, delta fields, copy bounds, signatures == per-block reference, engine-independence. CLI: signature|delta|patch chain and single-file sync (dst = basis, dst absent) as real processes; the .sig/.delta files must deserialize to the library values.",
